@@ -39,6 +39,11 @@ m = {
     "engines": [
         {"name": "proptest", "path": "/verif/harness", "serves_properties": [c["property_id"] for c in checks],
          "kind_free_text": "proptest 1.11 TestRunner driven from binaries (fixed ChaCha seed derived from VERIF_SEED, no persistence), explicit oracles, shrunk failures written as JSON replays"},
+        {"name": "libfuzzer (cargo-fuzz 0.13)", "path": "/verif/harness/fuzzing",
+         "serves_properties": sorted(pid for pid, spec in CHECKS.items() if any(str(st.get("sub", "")).startswith("fuzz-") for st in spec["steps"])),
+         "kind_free_text": "thorough tier only: coverage-guided campaigns with -runs=N -seed=S on a fresh corpus; targets derive_total / runtime_total / meta_list (totality, round trip) and `oracle`, which runs the semantic oracle of an L1/L2 proptest step on libFuzzer's bytes (same structure-aware decoders; built without --cfg fuzzing so that proc-macro2 keeps span locations); failures are saved in the proptest step's replay format"},
+        {"name": "rustc (cargo check)", "path": "/verif/harness/gen/l3c20", "serves_properties": ["C20"],
+         "kind_free_text": "oracle of C20: the generated crate of receiver declarations must type-check"},
     ],
     "checks": checks,
     "not_applicable": na,
